@@ -83,6 +83,8 @@ class C14(Prop):
         import fakesnow
 
         tmp = None
+        path = None
+        storage = "memory"
         fs = None
         admin = None
         sessions = []
@@ -93,14 +95,15 @@ class C14(Prop):
                 res, me, pr = "ok", ["none", "none"], "none"
                 if k == "inst":
                     path = None
+                    storage = op["storage"]
                     if op["storage"] != "memory":
                         tmp = tempfile.mkdtemp(prefix="fs14-")
                         path = tmp
                     if op["storage"] == "path_existing":
                         old = fakesnow.instance.FakeSnow(db_path=path)
                         c0 = old.connect("D_1", "S_1")
-                        c0.cursor().execute("create table keep (i int)")
-                        c0.cursor().execute("insert into keep values (1)")
+                        c0.cursor().execute("create table keep (i int, s varchar(9)) comment = 'kc'")
+                        c0.cursor().execute("insert into keep values (1, 'x')")
                         old.duck_conn.close()
                     fs = fakesnow.instance.FakeSnow(create_database_on_connect=op["cd"], create_schema_on_connect=op["cs"], db_path=path)
                     admin = fs.connect()
@@ -128,9 +131,19 @@ class C14(Prop):
                         pr = probe(conn)
                 raw = fs.duck_conn.cursor()
                 dbs, schemas = catalog(raw)
+                kept = "na"
+                if path is not None and storage == "path_existing" and "D_1" in dbs:
+                    try:
+                        ac = admin.cursor()
+                        rows = ac.execute("select i, s from d_1.s_1.keep").fetchall()
+                        cm = ac.execute("select comment from d_1.information_schema.tables where table_catalog = 'D_1' and table_schema = 'S_1' and table_name = 'KEEP'").fetchall()
+                        ds = [r[1] for r in ac.execute("describe table d_1.s_1.keep").fetchall()]
+                        kept = "ok" if rows == [(1, "x")] and cm == [("kc",)] and ds == ["NUMBER(38,0)", "VARCHAR(9)"] else f"bad:{rows}:{cm}:{ds}"[:120]
+                    except Exception as e:
+                        kept = "bad:" + type(e).__name__
                 files = sorted(f[:-3] for f in os.listdir(tmp) if f.endswith(".db")) if tmp else []
                 others = [[c.database or "none", c.schema or "none", probe(c)] for c in (sessions[:-1] if k == "connect" and res == "ok" else sessions)]
-                ev.append({"op": op, "obs": {"res": res, "me": me, "probe": pr, "dbs": dbs, "schemas": schemas, "files": files, "others": others}})
+                ev.append({"op": op, "obs": {"res": res, "me": me, "probe": pr, "dbs": dbs, "schemas": schemas, "files": files, "others": others, "kept": kept}})
         finally:
             if fs is not None:
                 try:
